@@ -3,16 +3,15 @@ C20 — storage backends are interchangeable.
 
 Two models (`Model/KV.lean`): `Spec` — the abstract ordered store that `go_level_db.go`
 delegates to (observed against the real GoLevelDB on every run), and `Mem` — `mem_db.go` as
-it is.  The property says that on every operation sequence both answer identically.
+it is NOW (after 686eb360: `IteratorPrefixWithStart` honours its prefix).
 
-* `c20_full` is that statement; it is REFUTED four ways (`c20_full_refuted`: Prefix ignored;
-  `c20_reverse_refuted`, `c20_nil_value_refuted`, `c20_set_alias_refuted`,
-  `c20_get_alias_refuted`), each by a concrete sequence that is also replayed on the real
-  backends (corpus/C20).
-* `memdb_refines_spec` is the partial theorem: for ALL sequences of the remaining operations
-  (induction over the sequence with the refinement relation `R`).
-* `iterWS_agree_of_prefix_closed` is the state-dependent form for start-bounded iteration:
-  MemDB and the store agree exactly when every stored key from `start` on carries the prefix.
+* `memdb_refines_spec` — for ALL sequences of get / set(non-nil) / delete / batch / prefix
+  iteration / start-bounded iteration with ANY prefix (forward, or reverse without a start key)
+  MemDB and the store return identical results (induction over the sequence with `R`).
+  F24a is repaired: its old witness is now an `example` of agreement.
+* `c20_full` (no restriction at all) is still REFUTED by the open findings:
+  `c20_reverse_refuted` (F24b), `c20_nil_value_refuted` (F24c), `c20_set_alias_refuted` (F24d),
+  `c20_get_alias_refuted` (F24e); `c20_full_refuted` uses the nil-value witness.
 -/
 import BytomModel.Lemmas.KVRefine
 
@@ -88,7 +87,7 @@ def Allowed : Op → Prop
   | .del _ => True
   | .batch ops => ∀ b ∈ ops, AllowedB b
   | .iterPrefix _ => True
-  | .iterWS p st rev => p = [] ∧ (rev = false ∨ st = none)
+  | .iterWS _ st rev => rev = false ∨ st = none
   | .setMut _ _ => False
   | .getMut _ => False
 
@@ -109,24 +108,19 @@ theorem batch_refines {m s} (r : R m s) (ops : List BOp) (h : ∀ b ∈ ops, All
       | some v => exact r.set k v
     | del k => exact r.delete k
 
-theorem prefixClosed_nil (s : Spec) (st : Option Bytes) : PrefixClosed s [] st := by
-  intro kv _ _
-  simp [hasPrefix]
-
-/-- start-bounded iteration agrees whenever every stored key from `start` on carries the prefix
-    (forward, or any direction with a nil start) -/
-theorem iterWS_agree_of_prefix_closed {m s} (r : R m s) (p : Bytes) (st : Option Bytes) (rev : Bool)
-    (hdir : rev = false ∨ st = none) (hc : PrefixClosed s p st) :
+/-- start-bounded iteration agrees for every prefix (forward, or any direction with a nil start) -/
+theorem iterWS_agree {m s} (r : R m s) (p : Bytes) (st : Option Bytes) (rev : Bool)
+    (hdir : rev = false ∨ st = none) :
     (Mem.step m (.iterWS p st rev)).2 = (Spec.step s (.iterWS p st rev)).2 := by
   cases st with
-  | none => simp only [Mem.step, Spec.step]; rw [r.iterWS_none p rev hc]
+  | none => simp only [Mem.step, Spec.step]; rw [r.iterWS_none p rev]
   | some st =>
     have : rev = false := by
       rcases hdir with h | h
       · exact h
       · cases h
     subst this
-    simp only [Mem.step, Spec.step]; rw [r.iterWS_forward p st hc]
+    simp only [Mem.step, Spec.step]; rw [r.iterWS_forward p st]
 
 theorem step_refines {m s} (r : R m s) (op : Op) (h : Allowed op) :
     R (Mem.step m op).1 (Spec.step s op).1 ∧ (Mem.step m op).2 = (Spec.step s op).2 := by
@@ -139,10 +133,7 @@ theorem step_refines {m s} (r : R m s) (op : Op) (h : Allowed op) :
   | del k => exact ⟨r.delete k, rfl⟩
   | batch ops => exact ⟨batch_refines r ops h, rfl⟩
   | iterPrefix p => exact ⟨r, by simp only [Mem.step, Spec.step]; rw [r.iterPrefix]⟩
-  | iterWS p st rev =>
-    obtain ⟨hp, hdir⟩ := h
-    subst hp
-    exact ⟨r, iterWS_agree_of_prefix_closed r [] st rev hdir (prefixClosed_nil s st)⟩
+  | iterWS p st rev => exact ⟨r, iterWS_agree r p st rev h⟩
   | setMut k v => exact absurd h id
   | getMut k => exact absurd h id
 
@@ -155,15 +146,15 @@ theorem run_refines {m s} (r : R m s) (ops : List Op) (h : ∀ op ∈ ops, Allow
     simp only [Mem.run, Spec.run]
     rw [hs.2, ih hs.1 (fun o ho => h o (List.mem_cons_of_mem _ ho))]
 
-/-- **C20, partial.** For every sequence of gets, sets of non-nil values, deletes, batches,
-    prefix iterations and start-bounded iterations over the whole key space (forward, or
-    reverse without a start key), MemDB and the ordered store return identical results. -/
+/-- **C20.** For every sequence of gets, sets of non-nil values, deletes, batches, prefix
+    iterations and start-bounded iterations under ANY prefix (forward, or reverse without a
+    start key), MemDB and the ordered store return identical results. -/
 theorem memdb_refines_spec (ops : List Op) (h : ∀ op ∈ ops, Allowed op) :
     Mem.run [] ops = Spec.run [] ops := run_refines R.empty ops h
 
 /-- the hypotheses are satisfiable on a non-trivial sequence (a test, by evaluation) -/
 example : ∀ op ∈ ([.set [0x62] (some [2]), .set [0x61, 0] (some []), .batch [.set [0x61] (some [1]), .del [0x62]],
-    .iterPrefix [0x61], .iterWS [] (some [0x61, 0]) false, .iterWS [] none true, .get [0x62]] : List Op), Allowed op := by
+    .iterPrefix [0x61], .iterWS [0x61] (some [0x61, 0]) false, .iterWS [0x62] none true, .get [0x62]] : List Op), Allowed op := by
   intro op h
   simp only [List.mem_cons, List.mem_nil_iff, or_false] at h
   rcases h with h | h | h | h | h | h | h <;> subst h <;> simp [Allowed, AllowedB]
@@ -176,25 +167,16 @@ example : Mem.run [] [.set [0x62] (some [2]), .set [0x61, 0] (some []), .iterWS 
 /-- the property as stated: on every operation sequence MemDB and the ordered store agree -/
 def c20_full : Prop := ∀ ops : List Op, Mem.run [] ops = Spec.run [] ops
 
-/-- F24a: `IteratorPrefixWithStart` of MemDB ignores the prefix -/
+/-- still false without restriction (witness: F24c, a nil value) -/
 theorem c20_full_refuted : ¬ c20_full := by
   intro h
-  have := h [.set [0x61] (some [1]), .set [0x62] (some [2]), .iterWS [0x61] (some [0x61]) false]
+  have := h [.set [0x61] none, .get [0x61]]
   revert this
   decide
 
-/-- the hypothesis `p = []` of `Allowed` cannot be dropped even for forward iteration without
-    nil values and mutation (same witness, stated against the partial theorem's shape) -/
-theorem c20_prefix_hypothesis_needed :
-    ¬ ∀ ops : List Op, (∀ op ∈ ops, (match op with | .iterWS _ _ rev => rev = false | o => Allowed o)) →
-      Mem.run [] ops = Spec.run [] ops := by
-  intro h
-  have := h [.set [0x61] (some [1]), .set [0x62] (some [2]), .iterWS [0x61] (some [0x61]) false]
-    (by intro op hop
-        simp only [List.mem_cons, List.mem_nil_iff, or_false] at hop
-        rcases hop with e | e | e <;> subst e <;> simp [Allowed])
-  revert this
-  decide
+/-- the witness of the repaired F24a (keys 61, 62; prefix 61, start 61, forward) now agrees -/
+example : Mem.run [] [.set [0x61] (some [1]), .set [0x62] (some [2]), .iterWS [0x61] (some [0x61]) false]
+    = Spec.run [] [.set [0x61] (some [1]), .set [0x62] (some [2]), .iterWS [0x61] (some [0x61]) false] := by decide
 
 /-- F24b: reverse iteration with a start key (prefix empty, so F24a is not involved) -/
 theorem c20_reverse_refuted :
